@@ -23,6 +23,7 @@ check() {
 # fast path: everything already in place
 if check; then
     echo "setup.sh: $VENV ok"
+    [ -s "$HERE/.optable_quick.json" ] || sh "$HERE/tools/optable_validate.sh" quick 0 "$HERE/.optable_quick.json" >/dev/null 2>&1 || true
     exit 0
 fi
 
@@ -62,6 +63,7 @@ fi
 
 if check; then
     echo "setup.sh: $VENV created"
+    sh "$HERE/tools/optable_validate.sh" quick 0 "$HERE/.optable_quick.json" >/dev/null 2>&1 || true
     exit 0
 fi
 echo "setup.sh: FAILED: $PY cannot import icontract, torch, numpy" >&2
